@@ -24,7 +24,17 @@ def f(b):
     return float("inf") if b >= INF_Q else float("-inf") if b <= -INF_Q else float(b)
 
 
-def user_config(sc):
+def user_config(sc, as_objects=False):
+    cfg = _user_config(sc)
+    if as_objects:          # sections the caller validated beforehand as objects of their own
+        from ropt.config.enopt import LinearConstraintsConfig, NonlinearConstraintsConfig, RealizationsConfig, VariablesConfig
+        for key, cls in (("variables", VariablesConfig), ("linear_constraints", LinearConstraintsConfig),
+                         ("nonlinear_constraints", NonlinearConstraintsConfig), ("realizations", RealizationsConfig)):
+            cfg[key] = cls.model_validate(cfg[key])
+    return cfg
+
+
+def _user_config(sc):
     rel = sc["ptype"] == "rel"
     return {
         "variables": {"initial_values": [float(v) for v in sc["x"]], "lower_bounds": [f(b) for b in sc["lb"]],
@@ -44,7 +54,8 @@ def transforms_of(sc):
     scales = [s[0] / s[1] for s in sc["s"]]
     fs = sc["fs"][0] / sc["fs"][1]
     which = sc.get("which", "all")
-    return make_transforms(scales if which in ("all", "vars") else None, [float(o) for o in sc["o"]] if which in ("all", "vars") else None,
+    return make_transforms(scales if which in ("all", "vars", "scal") else None,
+                           [float(o) for o in sc["o"]] if which in ("all", "vars", "offs") else None,
                            [fs] if which in ("all", "obj") else None, [fs] if which in ("all", "con") else None)
 
 
@@ -68,7 +79,12 @@ def run(sc, transforms):
     ctx.add_observer(EventType.FINISHED_EVALUATION, lambda e: seen.extend(e.data["results"]))
     plan = Plan(ctx)
     step = plan.add_step("optimizer")
-    code, outcome = outcome_of(lambda: plan.run_step(step, config=user_config(sc), transforms=transforms))
+    # with transforms, every second scenario hands the sections over as validated objects (and keeps them for a second use)
+    as_objects = transforms is not None and (sum(sc["x"]) + sc["l"] + sc["a"][1]) % 2 == 0
+    config = user_config(sc, as_objects)
+    if as_objects:
+        EnOptConfig.model_validate(config, context=transforms)
+    code, outcome = outcome_of(lambda: plan.run_step(step, config=config, transforms=transforms))
     fr = next((r for r in seen if isinstance(r, FunctionResults)), None)
     gr = next((r for r in seen if isinstance(r, GradientResults)), None)
     rows.sort(key=lambda t: (t[0], t[1]))
